@@ -173,6 +173,9 @@ class Polynomial_FCN(Model):
 
     def forward(self, points):
         points = self._fix_points_order(points).as_tensor
+        # work on a flat batch, further batch axes are restored at the end
+        batch_shape = points.shape[:-1]
+        points = points.reshape(-1, points.shape[-1])
         batch_dim = len(points)
         for i in range(len(self.layers)):
             points = points.unsqueeze(-1)
@@ -191,7 +194,7 @@ class Polynomial_FCN(Model):
             else:
                 points = self.activation_fn(out)
 
-        return Points(out, self.output_space)
+        return Points(out.reshape(*batch_shape, -1), self.output_space)
 
     def _construct_polynom_layers(self, hidden, polynomial_degree, xavier_gains):
         if not isinstance(xavier_gains, (list, tuple)):
